@@ -44,6 +44,7 @@ type Opts struct {
 	MaxEvidenceAge  uint64
 	Operators       map[int]common.Address // operator of genesis validator i (default: its own address)
 	Version         params.YouVersion      // protocol version of the genesis block (default YouV5)
+	NotInGenesis    map[int]bool           // identities that are funded but are no genesis validators (created later by a transaction)
 }
 
 // Node is one chain with its staking module.
@@ -164,6 +165,12 @@ func NewWorld(o Opts) (*World, error) {
 		op := k.Addr
 		if a, ok := o.Operators[i]; ok {
 			op = a
+		}
+		if o.NotInGenesis[i] {
+			if _, ok := alloc[k.Addr]; !ok {
+				alloc[k.Addr] = core.GenesisAccount{Balance: big.NewInt(3000000)}
+			}
+			continue
 		}
 		vals[k.Addr] = core.GenesisValidator{Name: fmt.Sprintf("v%d", i), OperatorAddress: op, Coinbase: k.Addr,
 			MainPubKey: k.PubComp, BlsPubKey: k.BlsPkB, Token: big.NewInt(tok), Role: RoleOf(i), Status: params.ValidatorOnline}
